@@ -119,7 +119,9 @@ def parseReplyLog (args : List String) : Option Log.ReplyLogIn :=
   | _ => none
 
 def parseFticks (args : List String) : Option Log.FticksIn :=
-  match args with
+  -- (an eighth token orig=<hex> is the User-Name as the client sent it, which rewriteusername keeps with the request: no part of a
+  --  record comes from it)
+  match (if args.length = 8 && (args.getD 7 "").startsWith "orig=" then args.take 7 else args) with
   | [mode, key, rep, acc, user, station, visinst] => do
     let mode ← mode.toNat?
     let key ← parseOptTok key
@@ -170,8 +172,20 @@ def parseEv (t : String) : Option Stream.Ev :=
   if t = "t" then some .stall else if t = "e" then some .eof
   else if t.startsWith "w:" then (ofHex (t.drop 2).toString).map .data else none
 
+/-- `b` = the writes that follow it (up to the next event that is not a write) reach the reader together, before it gets to read:
+    for the stream that is ONE write of all their octets -/
+def mergeBursts : List String → Option String → List String
+  | [], acc => (match acc with | some a => (if a.isEmpty then [] else ["w:" ++ a]) | none => [])
+  | t :: rest, acc =>
+    match acc with
+    | some a =>
+      if t.startsWith "w:" then mergeBursts rest (some (a ++ (t.drop 2).toString))
+      else (if a.isEmpty then [] else ["w:" ++ a]) ++ (if t = "b" then mergeBursts rest (some "") else t :: mergeBursts rest none)
+    | none => if t = "b" then mergeBursts rest (some "") else t :: mergeBursts rest none
+
 /-- `W:<hex>` = these octets and the end of the stream right behind them -/
-def parseEvs (ts : List String) : Option (List Stream.Ev) :=
+def parseEvs (ts0 : List String) : Option (List Stream.Ev) :=
+  let ts := mergeBursts ts0 none
   (ts.mapM fun (t : String) =>
     if t.startsWith "W:" then (ofHex (t.drop 2).toString).map fun b => [Stream.Ev.data b, Stream.Ev.eof]
     else (parseEv t).map fun e => [e]).map List.flatten
@@ -392,12 +406,19 @@ structure TlsBlk where
   addrMatch : Bool
   certOk : Bool
   certSpecOk : Bool
+  psk : Option (Bytes × Bytes) := none
 
 /-- dotted-quad text (as octets) to four octets -/
 def ipv4OfText (b : Bytes) : Option Bytes :=
   let parts := (String.fromUTF8! ⟨b.toArray⟩).splitOn "."
   if parts.length ≠ 4 then none else
   parts.mapM fun p => p.toNat?.bind fun n => if n < 256 then some (UInt8.ofNat n) else none
+
+/-- `psk=<identity hex>:<key hex>` -/
+def pskTok (toks : List String) : Option (Bytes × Bytes) :=
+  (kvTok toks "psk").bind fun v => match v.splitOn ":" with
+    | [i, k] => do pure ((← ofHex i), (← ofHex k))
+    | _ => none
 
 /-- one client block of a `tlsconn` line against the peer: is the source in its host list; does it accept the certificate -/
 def tlsBlk (src : Bytes) (certToks tr blk : List String) : Option TlsBlk := do
@@ -406,7 +427,8 @@ def tlsBlk (src : Bytes) (certToks tr blk : List String) : Option TlsBlk := do
   pure { name := (kvTok blk "name").getD "blk", tls := ((kvTok blk "tls").bind (·.toNat?)).getD 0,
          addrMatch := hosts.any fun (a, p) => if p ≥ 32 then a == src else Addr.prefixmatch src a p,
          certOk := Cert.verifyConf (libOf tr) v.conf v.cert none none,
-         certSpecOk := Spec.Cert.acceptB (libOf tr true) v.conf v.cert none none }
+         certSpecOk := Spec.Cert.acceptB (libOf tr true) v.conf v.cert none none,
+         psk := pskTok blk }
 
 /-- `tlsservernew` up to the attribution: the first block listing the source decides the TLS context; a peer whose certificate chain
     does not verify is nobody; else the connection belongs to the first block LISTING THE SOURCE, of that context, whose certificate
@@ -420,8 +442,10 @@ def tlsconnModel (args tr : List String) : String :=
         | none => "bad-op"
         | some bs =>
           -- (the decision itself: Rsp.Model.TlsAttr, theorems in Rsp.Props.C14Tls)
-          match TlsAttr.attributeTo (kvTok certToks "ca" != some "other")
-                  (bs.map fun b => { name := b.name, tls := b.tls, addrMatch := b.addrMatch, certOk := b.certOk }) with
+          let mbs : List TlsAttr.Blk := bs.map fun b => { name := b.name, tls := b.tls, addrMatch := b.addrMatch, certOk := b.certOk, psk := b.psk }
+          match (match pskTok certToks with
+                 | some (id, key) => TlsAttr.attributePsk id key mbs      -- the peer offers a PSK identity (and has no certificate)
+                 | none => TlsAttr.attributeTo (kvTok certToks "ca" != some "other") mbs) with
           | some c => "tlsconn attributed:" ++ c.name
           | none => "tlsconn none")
      | _, _ => "bad-op")
@@ -442,6 +466,11 @@ def tlsconnSpec (args tr impl : List String) : String :=
            | some b =>
              -- C14: the block a connection is attributed to lists the peer's address
              if !b.addrMatch then "bad C14:tls-connection-attributed-to-a-client-block-whose-host-list-does-not-contain-the-peer"
+             else if (pskTok certToks).isSome then
+               -- a connection made under a PSK belongs to a block holding exactly that identity and key
+               (if b.psk == pskTok certToks then "ok" else "bad C14:psk-connection-attributed-to-a-block-with-another-identity-or-key")
+             -- a peer showing a certificate never ends up in a TLS-PSK block
+             else if b.psk.isSome then "bad C15:certificate-peer-attributed-to-a-psk-block"
              -- C15: … and the peer's certificate verifies and meets that block's conditions
              else if kvTok certToks "ca" == some "other" then "bad C15:peer-with-a-certificate-from-an-untrusted-issuer-accepted"
              else if !b.certSpecOk then "bad C15:tls-connection-attributed-to-a-block-whose-certificate-conditions-the-peer-does-not-meet"
